@@ -43,6 +43,9 @@ class Runtime:
         self.class_ids = {}
         self.opaque_calls = []
         self.used_models = set()
+        self.pending_tasks = []
+        self.executed = set()        # source functions whose bodies were executed from their ASTs
+        self.by_contract = set()     # source functions replaced by a contract / model at the call
         self.global_ids = {}        # id(container) -> where it was created (module-level state)
         self.global_writes = []
         for name, base in BUILTIN_EXC.items():
@@ -847,6 +850,28 @@ class Runtime:
     def await_value(self, interp, v):
         # coroutines run to completion at the call (DESIGN 3.4); control may pass to other tasks only here:
         # in interference mode the unit's hook havocs the shared-write set under the rely condition (3.8)
+        from .objects import Coroutine, Task
+        pending = [t for t in self.pending_tasks if t.state == "pending" and t is not v]
+        if pending:
+            raise Undecided("something is awaited while a task created by ensure_future/create_task is still pending: "
+                            "the scheduling of tasks is not modelled")
+        if isinstance(v, Coroutine):
+            if v.state != "created":
+                interp.raise_py("RuntimeError", "cannot reuse already awaited coroutine")
+            v.state = "awaited"
+            v = interp.call(v.fn, v.args, v.kwargs)
+        elif isinstance(v, Task):
+            if v.state == "pending":
+                v.state = "running"
+                try:
+                    v.coro.state = "awaited"
+                    v.value = interp.call(v.coro.fn, v.coro.args, v.coro.kwargs)
+                    v.state = "result"
+                except PyExc as pe:
+                    v.value, v.state = pe.obj, "exception"
+            if v.state == "exception":
+                raise PyExc(v.value)
+            v = v.value
         if self.after_await is not None:
             self.after_await(interp)
         return v
